@@ -1,9 +1,480 @@
 import ShpanVerif.Util.Parse
-/- Driver handler for C19 (stub: replaced when the property's model lands). -/
+import ShpanVerif.Model.Order
+import ShpanVerif.Model.Parser
+/-
+Driver handler for C19.  Case families (see harness/run/c19.go):
+  ord <urn> : <polish expr> ; ...      obs := ok <urns|-> | err cyclic <urns> | err other
+  rt <ds|rds> <s-expression>           obs := equal <canonical JSON> | differ … | panic … | hang
+  mal <ds|rds> <JSON text>             obs := engine | reject | panic … | hang
+-/
 namespace ShpanVerif.Drive.C19
+open ShpanVerif.Util ShpanVerif.Model.Order ShpanVerif.Model.Parser
+
+/-! ### ordering -/
+
+/-- polish notation → `FieldExpr`, with fuel -/
+def parseExpr : Nat → List String → Option (FieldExpr Nat × List String)
+  | 0, _ => none
+  | _, [] => none
+  | n + 1, h :: rest =>
+    let sub1 := fun (k : FieldExpr Nat → FieldExpr Nat) =>
+      (parseExpr n rest).map (fun (a, r) => (k a, r))
+    let sub2 := fun (k : FieldExpr Nat → FieldExpr Nat → FieldExpr Nat) =>
+      match parseExpr n rest with
+      | some (a, r1) => (parseExpr n r1).map (fun (b, r2) => (k a b, r2))
+      | none => none
+    match h with
+    | "r" => match rest with
+      | u :: r => u.toNat?.map (fun u => (.ref u, r))
+      | [] => none
+    | "k" => some (.const, rest)
+    | "z" => some (.other, rest)
+    | "w" => some (.other, rest)
+    | "c" => sub2 .cond
+    | "l" => sub2 .logic
+    | "n" => sub2 .nvl
+    | "x" => sub2 .numeric
+    | "t" => sub1 .cast
+    | "y" => sub1 .unary
+    | "s" =>
+      match parseExpr n rest with
+      | some (a, r1) =>
+        match parseExpr n r1 with
+        | some (b, r2) => (parseExpr n r2).map (fun (c, r3) => (.selector a b c, r3))
+        | none => none
+      | none => none
+    | "d" => match rest with
+      | cnt :: r =>
+        match cnt.toNat? with
+        | some k =>
+          if r.length < k then none
+          else ((r.take k).mapM String.toNat?).map (fun us => (.reduce us, r.drop k))
+        | none => none
+      | [] => none
+    | _ => none
+
+def parseOrdFields (groups : List (List String)) : Option (List (Nat × FieldExpr Nat)) :=
+  groups.mapM (fun g =>
+    match g with
+    | u :: ":" :: e =>
+      match u.toNat?, parseExpr (e.length + 1) e with
+      | some u, some (x, []) => some (u, x)
+      | _, _ => none
+    | _ => none)
+
+/-- independent spec: edges of the in-set reference graph (no self loops) -/
+def edgesOf (fs : List (Nat × List Nat)) : List (Nat × Nat) :=
+  let urns := fs.map (·.1)
+  fs.flatMap (fun f => (f.2.filter (fun r => urns.contains r && r != f.1)).map (fun r => (f.1, r)))
+
+/-- one round of closure: add (a,c) for (a,b) in R, (b,c) in E -/
+def closeStep (E R : List (Nat × Nat)) : List (Nat × Nat) :=
+  (R ++ R.flatMap (fun ab => (E.filter (fun bc => bc.1 == ab.2)).map (fun bc => (ab.1, bc.2)))).eraseDups
+
+def closure (E : List (Nat × Nat)) : Nat → List (Nat × Nat) → List (Nat × Nat)
+  | 0, R => R
+  | n + 1, R => closure E n (closeStep E R)
+
+def posOf (l : List Nat) (x : Nat) : Nat := l.idxOf x
+
+def sortNat (l : List Nat) : List Nat := l.mergeSort (fun a b => a ≤ b)
+
+/-- spec predicate of the ordering property on an observation -/
+def ordSpec (fs : List (Nat × List Nat)) (obs : String) : Bool × String :=
+  let urns := fs.map (·.1)
+  if urns.eraseDups.length != urns.length then (true, "duplicate urns: outside the property")
+  else
+    let E := edgesOf fs
+    let tc := closure E urns.length E
+    let onCycle := fun u => tc.contains (u, u)
+    let cyclic := urns.any onCycle
+    match words obs with
+    | ["ok", l] =>
+      match parseNatList l with
+      | none => (false, "unparsable order")
+      | some res =>
+        if sortNat res != sortNat urns then (false, "not a permutation of the input")
+        else if !(E.all (fun e => posOf res e.2 < posOf res e.1)) then (false, "a field precedes a field it references")
+        else if cyclic then (false, "succeeded on a cyclic graph")
+        else (true, "")
+    | ["err", "cyclic", l] =>
+      match parseNatList l with
+      | none => (false, "unparsable node list")
+      | some nodes =>
+        if !cyclic then (false, "failed on an acyclic graph")
+        else
+          -- the reported nodes: exactly the fields from which a cycle is reachable, in input order
+          let want := urns.filter (fun u => onCycle u || urns.any (fun v => onCycle v && tc.contains (u, v)))
+          if nodes == want then (true, "") else (false, s!"cycle nodes: want {fmtNatList want}")
+    | _ => (false, "neither an order nor a cyclic-dependency error")
+
+/-! ### s-expressions → typed trees -/
+
+inductive Sx where
+  | atom (s : String)
+  | list (l : List Sx)
+  deriving Inhabited
+
+mutual
+def parseSx : Nat → List String → Option (Sx × List String)
+  | 0, _ => none
+  | _, [] => none
+  | n + 1, t :: rest =>
+    if t == "(" then parseSxList n rest []
+    else if t == ")" then none
+    else some (.atom t, rest)
+def parseSxList : Nat → List String → List Sx → Option (Sx × List String)
+  | 0, _, _ => none
+  | _, [], _ => none
+  | n + 1, t :: rest, acc =>
+    if t == ")" then some (.list acc.reverse, rest)
+    else match parseSx n (t :: rest) with
+      | some (s, r) => parseSxList n r (s :: acc)
+      | none => none
+end
+
+def sxStr : Sx → Option String
+  | .atom "~" => some ""
+  | .atom s => some s
+  | _ => none
+
+def sxBool (s : Sx) : Option Bool := (sxStr s).map (· == "1")
+
+def sxStrs (l : List Sx) : Option (List String) := l.mapM sxStr
+
+def toDec (a : String) : Option Dec :=
+  match a.splitOn ":" with
+  | ["d", m, e] => do let m ← m.toInt?; let e ← e.toNat?; pure ⟨m, e⟩
+  | _ => none
+
+def toVal (s : Sx) : Option Json :=
+  match s with
+  | .atom "nul" => some .null
+  | .atom "tt" => some (.bool true)
+  | .atom "ff" => some (.bool false)
+  | .atom a =>
+    if a.startsWith "s:" then some (.str (a.drop 2).toString)
+    else (toDec a).map (fun d => .num d.m d.e)
+  | _ => none
+
+def toCm : Sx → Option Obj
+  | .list (.atom "cm" :: kvs) =>
+    let rec go : List Sx → Option Obj
+      | [] => some []
+      | k :: v :: t => do
+        let k ← sxStr k; let v ← sxStr v; let r ← go t
+        pure ((k, Json.str v) :: r)
+      | _ => none
+    go kvs
+  | _ => none
+
+/-- custom metadata is a Go map: `json.Marshal` writes its keys sorted -/
+def sortObj (kv : Obj) : Obj := kv.mergeSort (fun a b => a.1 ≤ b.1)
+
+def toAm : Sx → Option AddMeta
+  | .list [.atom "am", uri, unit, cm] => do
+    pure ⟨← sxStr uri, ← sxStr unit, sortObj (← toCm cm)⟩
+  | _ => none
+
+def toFm : Sx → Option FieldMeta
+  | .list [.atom "fm", uri, dt, req, unit, cm] => do
+    pure ⟨← sxStr uri, ← sxStr dt, ← sxBool req, ← sxStr unit, sortObj (← toCm cm)⟩
+  | _ => none
+
+def toPeriod : Sx → Option Period
+  | .list [.atom "custom", ms, zone] => do
+    pure (.custom (← (← sxStr ms).toInt?) (← sxStr zone))
+  | .list [.atom "cal", kind, zone] => do pure (.calendar (← sxStr kind) (← sxStr zone))
+  | _ => none
+
+def toAl : Sx → Option Aligner
+  | .list [.atom "al", p, fill] => do
+    let p ← toPeriod p
+    let f ← sxStr fill
+    pure ⟨p, if f == "" then none else some f⟩
+  | _ => none
+
+def toQField : Nat → Sx → Option QField
+  | 0, _ => none
+  | n + 1, s =>
+    match s with
+    | .list [.atom "const", dt, v, req, unit] => do
+      pure (.constant (← sxStr dt) (← toVal v) (← sxBool req) (← sxStr unit))
+    | .list [.atom "cond", op, a, b] => do pure (.condition (← sxStr op) (← toQField n a) (← toQField n b))
+    | .list [.atom "logic", op, a, b] => do pure (.logical (← sxStr op) (← toQField n a) (← toQField n b))
+    | .list [.atom "ref"] => some .ref
+    | .list [.atom "sel", a, b, c] => do pure (.selector (← toQField n a) (← toQField n b) (← toQField n c))
+    | .list [.atom "nvl", a, b] => do pure (.nvl (← toQField n a) (← toQField n b))
+    | .list [.atom "cast", a, t] => do pure (.cast (← toQField n a) (← sxStr t))
+    | .list [.atom "num", op, a, b] => do pure (.numeric (← sxStr op) (← toQField n a) (← toQField n b))
+    | .list [.atom "un", op, a] => do pure (.unary (← sxStr op) (← toQField n a))
+    | .list [.atom "nil", dt, unit] => do pure (.nil (← sxStr dt) (← sxStr unit))
+    | _ => none
+
+def toRField : Nat → Sx → Option RField
+  | 0, _ => none
+  | n + 1, s =>
+    match s with
+    | .list [.atom "const", dt, v, req, unit] => do
+      pure (.constant (← sxStr dt) (← toVal v) (← sxBool req) (← sxStr unit))
+    | .list [.atom "cond", op, a, b] => do pure (.condition (← sxStr op) (← toRField n a) (← toRField n b))
+    | .list [.atom "logic", op, a, b] => do pure (.logical (← sxStr op) (← toRField n a) (← toRField n b))
+    | .list [.atom "ref", u] => do pure (.ref (← sxStr u))
+    | .list [.atom "sel", a, b, c] => do pure (.selector (← toRField n a) (← toRField n b) (← toRField n c))
+    | .list [.atom "nvl", a, b] => do pure (.nvl (← toRField n a) (← toRField n b))
+    | .list [.atom "cast", a, t] => do pure (.cast (← toRField n a) (← sxStr t))
+    | .list [.atom "num", op, a, b] => do pure (.numeric (← sxStr op) (← toRField n a) (← toRField n b))
+    | .list [.atom "un", op, a] => do pure (.unary (← sxStr op) (← toRField n a))
+    | .list (.atom "reduce" :: rt :: urns) => do pure (.reduce (← sxStrs urns) (← sxStr rt))
+    | .list [.atom "nil", dt, unit] => do pure (.nil (← sxStr dt) (← sxStr unit))
+    | _ => none
+
+def toFilter (n : Nat) : Sx → Option Filter
+  | .list [.atom "faligner", a] => do pure (.aligner (← toAl a))
+  | .list [.atom "fcond", f] => do pure (.condition (← toQField n f))
+  | .list [.atom "fvalue", f, m] => do pure (.fieldValue (← toQField n f) (← toAm m))
+  | .list [.atom "fover", urn, unit, cm] => do pure (.overrideMeta (← sxStr urn) (← sxStr unit) (sortObj (← toCm cm)))
+  | .list [.atom "fdelta", nn, mx] => do pure (.delta (← sxBool nn) (← toDec (← sxStr mx)))
+  | .list [.atom "frate", unit, ps, nn, mx] => do
+    let ps ← sxStr ps
+    let ps ← if ps == "" then pure none else (ps.toInt?).map some
+    pure (.rate (← sxStr unit) ps (← sxBool nn) (← toDec (← sxStr mx)))
+  | _ => none
+
+def toRFilter (n : Nat) : Sx → Option RFilter
+  | .list [.atom "raligner", a] => do pure (.aligner (← toAl a))
+  | .list [.atom "rcond", f] => do pure (.condition (← toRField n f))
+  | .list [.atom "rappend", f, m] => do pure (.appendField (← toRField n f) (← toAm m))
+  | .list (.atom "rdrop" :: urns) => do pure (.dropFields (← sxStrs urns))
+  | .list [.atom "rsingle", f, m] => do pure (.singleField (← toRField n f) (← toAm m))
+  | .list (.atom "rproj" :: urns) => do pure (.projection (← sxStrs urns))
+  | _ => none
+
+def toPoint : Sx → Option Point
+  | .list [.atom "pt", ts, v] => do pure ⟨← sxStr ts, ← toVal v⟩
+  | _ => none
+
+def toRow : Sx → Option Row
+  | .list (.atom "row" :: ts :: vs) => do pure ⟨← sxStr ts, ← vs.mapM toVal⟩
+  | _ => none
+
+mutual
+def toDS : Nat → Sx → Option DS
+  | 0, _ => none
+  | n + 1, s =>
+    match s with
+    | .list (.atom "static" :: fm :: pts) => do pure (.static (← toFm fm) (← pts.mapM toPoint))
+    | .list (.atom "filtered" :: d :: fs) => do pure (.filtered (← toDS n d) (← fs.mapM (toFilter n)))
+    | .list [.atom "reduction", rt, al, m, am, e] => do
+      let e ← match e with
+        | .atom "~" => pure none
+        | e => (toQField n e).map some
+      pure (.reduction (← sxStr rt) (← toAl al) (← toMDS n m) (← toAm am) e)
+    | .list [.atom "fromReport", r, urn] => do pure (.fromReport (← toRDS n r) (← sxStr urn))
+    | _ => none
+def toMDS : Nat → Sx → Option MDS
+  | 0, _ => none
+  | n + 1, s =>
+    match s with
+    | .list (.atom "mlist" :: ds) => do pure (.list (← toDSs n ds))
+    | .list (.atom "mfiltered" :: m :: fs) => do pure (.filtered (← toMDS n m) (← fs.mapM (toFilter n)))
+    | _ => none
+def toDSs : Nat → List Sx → Option (List DS)
+  | _, [] => some []
+  | n, s :: t => do pure ((← toDS n s) :: (← toDSs n t))
+def toRDS : Nat → Sx → Option RDS
+  | 0, _ => none
+  | n + 1, s =>
+    match s with
+    | .list (.atom "rstatic" :: .list (.atom "metas" :: ms) :: rows) => do
+      pure (.static (← ms.mapM toFm) (← rows.mapM toRow))
+    | .list [.atom "join", jt, m] => do pure (.join (← sxStr jt) (← toRMDS n m))
+    | .list [.atom "fromDs", d] => do pure (.fromDatasource (← toDS n d))
+    | .list (.atom "rfiltered" :: r :: fs) => do pure (.filtered (← toRDS n r) (← fs.mapM (toRFilter n)))
+    | _ => none
+def toRMDS : Nat → Sx → Option RMDS
+  | 0, _ => none
+  | n + 1, s =>
+    match s with
+    | .list (.atom "rmlist" :: ds) => do pure (.list (← toRDSs n ds))
+    | .list [.atom "rmfrom", m] => do pure (.fromMulti (← toMDS n m))
+    | .list (.atom "rmfiltered" :: m :: fs) => do pure (.filtered (← toRMDS n m) (← fs.mapM (toRFilter n)))
+    | _ => none
+def toRDSs : Nat → List Sx → Option (List RDS)
+  | _, [] => some []
+  | n, s :: t => do pure ((← toRDS n s) :: (← toRDSs n t))
+end
+
+/-! ### canonical JSON text (sorted keys, no spaces) -/
+
+def normDec : Nat → Int → Nat → Int × Nat
+  | 0, m, e => (m, e)
+  | f + 1, m, e => if e > 0 && m % 10 == 0 then normDec f (m / 10) (e - 1) else (m, e)
+
+def padLeft (s : String) (n : Nat) : String := String.ofList (List.replicate (n - s.length) '0') ++ s
+
+def fmtNum (m : Int) (e : Nat) : String :=
+  let (m, e) := normDec e m e
+  if e == 0 then toString m
+  else
+    let a := m.natAbs
+    let p := 10 ^ e
+    (if m < 0 then "-" else "") ++ toString (a / p) ++ "." ++ padLeft (toString (a % p)) e
+
+mutual
+def canon : Json → String
+  | .null => "null"
+  | .bool b => if b then "true" else "false"
+  | .num m e => fmtNum m e
+  | .str s => "\"" ++ s ++ "\""
+  | .arr l => "[" ++ ",".intercalate (canonList l) ++ "]"
+  | .obj kv => "{" ++ ",".intercalate ((canonObj kv).mergeSort (fun a b => a ≤ b)) ++ "}"
+def canonList : List Json → List String
+  | [] => []
+  | j :: t => canon j :: canonList t
+def canonObj : List (String × Json) → List String
+  | [] => []
+  | (k, j) :: t => ("\"" ++ k ++ "\":" ++ canon j) :: canonObj t
+end
+
+/-! ### JSON text → `Json` (the subset the harness writes: no escapes, no exponents, no spaces) -/
+
+def isDigit (c : Char) : Bool := c.isDigit
+
+def takeDigits : List Char → List Char × List Char
+  | c :: t => if c.isDigit then let (d, r) := takeDigits t; (c :: d, r) else ([], c :: t)
+  | [] => ([], [])
+
+def takeStr : List Char → Option (List Char × List Char)
+  | '"' :: t => some ([], t)
+  | c :: t => (takeStr t).map (fun (s, r) => (c :: s, r))
+  | [] => none
+
+def digitsToNat (ds : List Char) : Nat := ds.foldl (fun a c => a * 10 + (c.toNat - '0'.toNat)) 0
+
+def parseNum (cs : List Char) : Option (Json × List Char) :=
+  let (neg, cs) := match cs with | '-' :: t => (true, t) | _ => (false, cs)
+  let (ip, r) := takeDigits cs
+  if ip.isEmpty then none
+  else
+    let (fp, r) := match r with
+      | '.' :: t => takeDigits t
+      | _ => ([], r)
+    let m : Int := digitsToNat (ip ++ fp)
+    some (.num (if neg then -m else m) fp.length, r)
+
+mutual
+def pJson : Nat → List Char → Option (Json × List Char)
+  | 0, _ => none
+  | _, [] => none
+  | n + 1, c :: t =>
+    if c == '{' then
+      match t with
+      | '}' :: r => some (.obj [], r)
+      | _ => pMembers n t []
+    else if c == '[' then
+      match t with
+      | ']' :: r => some (.arr [], r)
+      | _ => pElems n t []
+    else if c == '"' then (takeStr t).map (fun (s, r) => (.str (String.ofList s), r))
+    else if c == 't' then match t with | 'r' :: 'u' :: 'e' :: r => some (.bool true, r) | _ => none
+    else if c == 'f' then match t with | 'a' :: 'l' :: 's' :: 'e' :: r => some (.bool false, r) | _ => none
+    else if c == 'n' then match t with | 'u' :: 'l' :: 'l' :: r => some (.null, r) | _ => none
+    else parseNum (c :: t)
+def pMembers : Nat → List Char → List (String × Json) → Option (Json × List Char)
+  | 0, _, _ => none
+  | n + 1, cs, acc =>
+    match cs with
+    | '"' :: t =>
+      match takeStr t with
+      | some (k, ':' :: r) =>
+        match pJson n r with
+        | some (v, ',' :: r2) => pMembers n r2 ((String.ofList k, v) :: acc)
+        | some (v, '}' :: r2) => some (.obj ((String.ofList k, v) :: acc).reverse, r2)
+        | _ => none
+      | _ => none
+    | _ => none
+def pElems : Nat → List Char → List Json → Option (Json × List Char)
+  | 0, _, _ => none
+  | n + 1, cs, acc =>
+    match pJson n cs with
+    | some (v, ',' :: r) => pElems n r (v :: acc)
+    | some (v, ']' :: r) => some (.arr (v :: acc).reverse, r)
+    | _ => none
+end
+
+def parseJsonText (s : String) : Option Json :=
+  let cs := s.toList
+  match pJson (cs.length + 1) cs with
+  | some (j, []) => some j
+  | _ => none
+
+/-! ### handlers -/
+
+/-- the zones the generators use: what `time.LoadLocation` accepts among them -/
+def zoneOk (z : String) : Bool :=
+  ["", "UTC", "Local", "Europe/Berlin", "America/New_York", "Asia/Kolkata", "Australia/Sydney"].contains z
+
+def outcomeText {α : Type} : Outcome α → String
+  | .ok _ => "engine"
+  | .reject => "reject"
+  | .panic => "panic model"
+
+def handleRt (kind : String) (toks : List String) (obs : String) : String × Bool × String :=
+  let specOk := obs.startsWith "equal "
+  let why := if specOk then "" else "parsed engine and directly constructed engine are not observationally equal (or panic/hang)"
+  match parseSx (toks.length + 1) toks with
+  | some (sx, []) =>
+    let n := toks.length + 1
+    if kind == "ds" then
+      match toDS n sx with
+      | none => ("bad-case", false, "unparsable tree")
+      | some q =>
+        let doc := serDS q
+        -- the model's own verdict on the document it serialises (accept = round trip reproduces the document)
+        let back := match parseDatasourceDoc zoneOk doc with
+          | .ok q' => if canon (serDS q') == canon (serDS (normDS q)) then "accept" else "accept-but-model-roundtrip-differs"
+          | .reject => "reject"
+          | .panic => "model-panics"
+        ("equal " ++ back ++ " " ++ canon doc, specOk, why)
+    else if kind == "rds" then
+      match toRDS n sx with
+      | none => ("bad-case", false, "unparsable tree")
+      | some q =>
+        let doc := serRDS q
+        let back := match parseReportDoc zoneOk doc with
+          | .ok q' => if canon (serRDS q') == canon (serRDS (normRDS q)) then "accept" else "accept-but-model-roundtrip-differs"
+          | .reject => "reject"
+          | .panic => "model-panics"
+        ("equal " ++ back ++ " " ++ canon doc, specOk, why)
+    else ("bad-case", false, "unknown kind")
+  | _ => ("bad-case", false, "unparsable s-expression")
+
+def handleMal (kind doc obs : String) : String × Bool × String :=
+  let specOk := obs == "engine" || obs == "reject"
+  let why := if specOk then "" else "a document must give an engine or an error, never a panic or a hang"
+  match parseJsonText doc with
+  | none => ("bad-case", false, "unparsable JSON text")
+  | some j =>
+    if kind == "ds" then (outcomeText (parseDatasourceDoc zoneOk j), specOk, why)
+    else if kind == "rds" then (outcomeText (parseReportDoc zoneOk j), specOk, why)
+    else ("bad-case", false, "unknown kind")
 
 /-- returns (model output, spec verdict on the observation, reason) -/
-def handle (_c _obs : String) : String × Bool × String :=
-  ("unimplemented", false, "no model yet")
+def handle (c obs : String) : String × Bool × String :=
+  match words c with
+  | "ord" :: toks =>
+    let groups := if toks.isEmpty then [] else splitAt ";" toks
+    match parseOrdFields groups with
+    | none => ("bad-case", false, "unparsable case")
+    | some fs =>
+      let model := match orderExprs fs with
+        | .ok l => "ok " ++ fmtNatList l
+        | .error nodes => "err cyclic " ++ fmtNatList nodes
+      let (ok, why) := ordSpec (fs.map (fun f => (f.1, refsOf f.2))) obs
+      (model, ok, why)
+  | "rt" :: kind :: toks => handleRt kind toks obs
+  | ["mal", kind, doc] => handleMal kind doc obs
+  | _ => ("bad-case", false, "unknown case family")
 
 end ShpanVerif.Drive.C19
